@@ -53,6 +53,49 @@ def bounded(pb, interp, rng, tier):
                 pass
             except Exception as e:
                 fail(f"{cname}.{field}", f"non-finite-{field}.assignment-wrong-error", cname, type(e).__name__)
+        # values of unhashable / array kinds for the enumerated attributes, complex "positive" quantities
+        probes = []
+        if "freq_align" in kw or cname in ("RadioSignal", "IntensitySignal", "FullStokesSignal", "BasebandSignal", "DualPolarizationSignal"):
+            probes += [("freq_align", ["center"]), ("freq_align", np.array("top")), ("freq_align", {"top": 1})]
+        if cname == "DualPolarizationSignal":
+            probes += [("pol_type", ["linear"]), ("pol_type", {}), ("pol_type", np.array(["linear"]))]
+        probes += [("sample_rate", 5j * u.Hz), ("sample_rate", (1 - 5j) * u.kHz)]
+        if "chan_bw" in kw:
+            probes += [("chan_bw", 2j * u.MHz)]
+        for field, bad in probes:
+            ev += 1
+            distinct.add((cname, field, repr(bad)))
+            k2 = dict(kw)
+            k2[field] = bad
+            try:
+                cls(data, **k2)
+                fail(f"{cname}.__init__", f"invalid-{field}.accepted", f"{cname} {field}={bad!r}", "no error")
+            except ValueError:
+                pass
+            except Exception as e:
+                fail(f"{cname}.__init__", f"invalid-{field}.wrong-error", f"{cname} {field}={bad!r}", f"{type(e).__name__}: {e}")
+            s = cls(data, **kw)
+            try:
+                setattr(s, field, bad)
+                fail(f"{cname}.{field}", f"invalid-{field}.assignment-accepted", f"{cname} {field}={bad!r}", "no error")
+            except ValueError:
+                pass
+            except Exception as e:
+                fail(f"{cname}.{field}", f"invalid-{field}.assignment-wrong-error", f"{cname} {field}={bad!r}", f"{type(e).__name__}: {e}")
+        # a refused augmented assignment leaves the object (and signals made from it) valid
+        import copy
+        s = cls(data, **copy.deepcopy(kw))      # the library stores the caller's Quantity objects
+        c2 = s[:]
+        ev += 1
+        try:
+            s.sample_rate *= -1
+            fail(f"{cname}.sample_rate", "augmented-assignment.accepted", cname, "no error")
+        except ValueError:
+            if not (s.sample_rate > 0 and c2.sample_rate > 0):
+                fail(f"{cname}.sample_rate", "augmented-assignment.rejected-but-object-invalid", f"{cname}: s.sample_rate *= -1",
+                     f"after the ValueError s.sample_rate = {s.sample_rate}, slice made before = {c2.sample_rate}")
+        except Exception as e:
+            fail(f"{cname}.sample_rate", "augmented-assignment.wrong-error", cname, type(e).__name__)
         # pickling reproduces every attribute
         for be in ("numpy", "dask"):
             d = data if be == "numpy" else da.from_array(data, chunks=(-1, 1, 1) if data.ndim == 3 else (-1, 1))
